@@ -623,6 +623,7 @@ func init() {
 			a.Exhaustive = a.Exhaustive && b.Exhaustive
 			return a
 		},
+		Also:        []string{"C01", "C02", "C03"},
 		EnumPar:     enumResetPairs,
 		EnumParts:   map[string]int{"quick": 48, "thorough": 96},
 		Assumptions: append([]string{"reference matcher implements the wildcard semantics of the statement token-wise"}, e1Assumptions...),
